@@ -2,6 +2,7 @@ import Driver.Codec
 import Driver.Block
 import Driver.Doc
 import Driver.Wrap
+import Driver.Ast
 import Mistletoe.Model.Document
 import Mistletoe.Model.Markdown
 open Lean Mistletoe
@@ -12,10 +13,21 @@ def optsOf (j : Json) : Except String Markdown.Opts := do
   pure { maxLineLength := ← Driver.Wrap.optInt j "maxLineLength",
          normalizeWhitespace := (j.getObjValAs? Bool "normalizeWhitespace").toOption.getD false }
 
+def renderTree (opts : Markdown.Opts) (d : Doc) : Json :=
+  match Markdown.renderRes opts d with
+  | .err e => Json.mkObj [("raises", Json.str (Driver.Block.errName e)), ("phase", "render")]
+  | .ok s => Json.mkObj [("md", Driver.str s)]
+
 /-- op "md.render": {"text" | "lines", "types", "span", "fuel"?, "opts": {"maxLineLength": Int|null,
     "normalizeWhitespace": Bool}} → {"md": String} | {"raises": name, "phase": "parse"|"render"}:
-    `MarkdownRenderer(**opts).render(Document(text))` under the given token lists. -/
+    `MarkdownRenderer(**opts).render(Document(text))` under the given token lists.
+    With {"doc": Doc, "opts"} instead of a text: `MarkdownRenderer(**opts).render(doc)` on the given tree. -/
 def renderOp (j : Json) : Except String Json := do
+  if let .ok dj := j.getObjVal? "doc" then
+    let opts ← match j.getObjVal? "opts" with
+      | .ok o => optsOf o
+      | .error _ => pure {}
+    return renderTree opts (← Driver.Ast.docOf dj)
   let cfg ← Driver.Doc.cfgOf j
   let fuel := (j.getObjValAs? Nat "fuel").toOption.getD 1000000
   let opts ← match j.getObjVal? "opts" with
@@ -30,9 +42,6 @@ def renderOp (j : Json) : Except String Json := do
       pure (Document.parse cfg fuel text)
   match r with
   | .err e => pure (Json.mkObj [("raises", Json.str (Driver.Block.errName e)), ("phase", "parse")])
-  | .ok d =>
-    match Markdown.renderRes opts d with
-    | .err e => pure (Json.mkObj [("raises", Json.str (Driver.Block.errName e)), ("phase", "render")])
-    | .ok s => pure (Json.mkObj [("md", Driver.str s)])
+  | .ok d => pure (renderTree opts d)
 
 end Driver.Md
